@@ -51,6 +51,10 @@ fn run(input: RunInput) -> ScenFuture {
         let w = World::new(&input, LinkCfg::clean(200, 2_000));
         let class8m = w.flag("boundary_8mib", if w.tier == Tier::Quick { 0.004 } else { 0.002 });
         let place = if class8m { 0 } else { w.param("placement", 0, 3) };
+        // the caller built with a user outbound layer that adds a header on the way out: what goes
+        // on the wire is what the limits apply to
+        let added = if !class8m && w.flag("caller_outbound_layer_adds_a_header", 0.25) { w.param("added_header_bytes", 1, 300) as usize } else { 0 };
+        let added_entry = if added > 0 { 8 + "x-added".len() + 8 + added } else { 0 };
         let mut lr = w.rng("cfg:limits");
         let mut pick = |r: &mut rand::rngs::StdRng| match r.gen_range(0..4) {
             0 => r.gen_range(40..64usize),
@@ -58,9 +62,11 @@ fn run(input: RunInput) -> ScenFuture {
             2 => r.gen_range(2000..70_000),
             _ => r.gen_range(70_000..262_144),
         };
-        let lc = (place & 1 != 0).then(|| pick(&mut lr));
-        let ls = (place & 2 != 0).then(|| pick(&mut lr));
-        let n_rpcs = if class8m { 3 } else { w.param("rpcs", 1, 16) as u64 };
+        // (every limit leaves room for the small follow-up request, added header included)
+        let lc = (place & 1 != 0).then(|| pick(&mut lr) + added_entry);
+        let ls = (place & 2 != 0).then(|| pick(&mut lr) + added_entry);
+        let n_rpcs = if class8m { 3 } else { w.param("rpcs", 1, 40) as u64 };
+
         let mut cfg_c = base_config(30_000, Some(5_000));
         cfg_c.max_frame_size = lc;
         let mut cfg_s = base_config(30_000, Some(5_000));
@@ -77,7 +83,12 @@ fn run(input: RunInput) -> ScenFuture {
         let svc = Svc::new(&w, plan);
         let h = svc.handle();
         let server = w.start_node(w.spec_exact(2, cfg_s), svc).unwrap();
-        let client = w.start_node(w.spec_exact(1, cfg_c), Svc::echo(&w)).unwrap();
+        let mut spec_c = w.spec_exact(1, cfg_c);
+        if added > 0 {
+            spec_c.user_outbound_layer = true;
+            spec_c.user_outbound_adds_header = added;
+        }
+        let client = w.start_node(spec_c, Svc::echo(&w)).unwrap();
         let mut sub_c = Subscription::new(&client.net).unwrap();
         let mut sub_s = Subscription::new(&server.net).unwrap();
         if client.net.connect_with_peer_id(server.addr, server.peer_id).await.is_err() {
@@ -107,7 +118,7 @@ fn run(input: RunInput) -> ScenFuture {
                 match steer {
                     0 => { let (v, b) = near(&mut r, &limits, 0); bq = v; on_boundary = b; }
                     1 => { let (v, b) = near(&mut r, &limits, 0); br = v; on_boundary = b; }
-                    2 => { let (v, b) = near(&mut r, &limits, REQ_BASE + 40 + PAD_ENTRY); hq = v; on_boundary = b; }
+                    2 => { let (v, b) = near(&mut r, &limits, REQ_BASE + 40 + PAD_ENTRY + added_entry); hq = v; on_boundary = b; }
                     _ => { let (v, b) = near(&mut r, &limits, RESP_BASE + PAD_ENTRY); hr = v; on_boundary = b; }
                 }
             }
@@ -115,13 +126,16 @@ fn run(input: RunInput) -> ScenFuture {
             let resp_pad = (hr > 0).then(|| hr - RESP_BASE - PAD_ENTRY);
             let hr_size = resp_pad.map(|p| RESP_BASE + PAD_ENTRY + p).unwrap_or(RESP_BASE);
             let route = format!("/n{i}/b{br}/h{}", resp_pad.map(|p| p.to_string()).unwrap_or_else(|| "-".into()));
-            let req_pad = (hq > 0).then(|| hq.saturating_sub(REQ_BASE + route.len() + PAD_ENTRY));
-            let hq_size = REQ_BASE + route.len() + req_pad.map(|p| PAD_ENTRY + p).unwrap_or(0);
+            let req_pad = (hq > 0).then(|| hq.saturating_sub(REQ_BASE + route.len() + PAD_ENTRY + added_entry));
+            let hq_size = REQ_BASE + route.len() + req_pad.map(|p| PAD_ENTRY + p).unwrap_or(0) + added_entry;
             let mut req = Request::new(body_for(seed, i, bq, 0xAA)).with_route(route.clone());
             let mut hdrs = Vec::new();
             if let Some(p) = req_pad {
                 req = req.with_header("p", "x".repeat(p));
                 hdrs.push(("p".to_string(), "x".repeat(p)));
+            }
+            if added > 0 {
+                hdrs.push(("x-added".to_string(), "a".repeat(added)));
             }
             // cross-check the size arithmetic against the reference encoder
             let ref_len = crate::model::wire::request_header(&route, &hdrs).len();
